@@ -111,6 +111,33 @@ fn case_variants(r: &mut Rng, s: &str) -> Vec<String> {
     vec![s.to_string(), s.to_ascii_lowercase(), s.to_ascii_uppercase(), mixed]
 }
 
+/// all strings at edit distance 1 over the alphabet a-z, A, Z, '_', '-'
+fn single_edits(s: &str) -> Vec<String> {
+    let alphabet: Vec<char> = ('a'..='z').chain(['A', 'Z', '_', '-']).collect();
+    let cs: Vec<char> = s.chars().collect();
+    let mut out = Vec::new();
+    for i in 0..=cs.len() {
+        for &a in &alphabet {
+            let mut v = cs.clone();
+            v.insert(i, a);
+            out.push(v.iter().collect());
+        }
+    }
+    for i in 0..cs.len() {
+        let mut v = cs.clone();
+        v.remove(i);
+        out.push(v.iter().collect());
+        for &a in &alphabet {
+            if a != cs[i] {
+                let mut v = cs.clone();
+                v[i] = a;
+                out.push(v.iter().collect());
+            }
+        }
+    }
+    out
+}
+
 pub fn gen(cfg: &Cfg) -> Vec<String> {
     let mut r = Rng::new(cfg.seed);
     let mut ops = Vec::new();
@@ -136,6 +163,12 @@ pub fn gen(cfg: &Cfg) -> Vec<String> {
     // boundary strings
     for s in ["", " ", "a b", "a\n", "Artist ", " Artist", "Art1st", "é", "aé", "a-b", "a_b", "-", "_", "A", "z", "@", "[", "`", "{", "Albu", "Albumm", "album\0"] {
         ops.push(format!("tag.try {}", hex(s.as_bytes())));
+    }
+    // complete single-edit neighbourhood of every known name (a typo in a table entry shows up here)
+    for n in &names {
+        for v in single_edits(n) {
+            ops.push(format!("tag.try {}", hex(v.as_bytes())));
+        }
     }
     // random candidates
     let n_rand = cfg.n.unwrap_or(if cfg.thorough { 100_000 } else { 10_000 });
@@ -211,6 +244,9 @@ pub fn gen(cfg: &Cfg) -> Vec<String> {
     for _ in 0..(if cfg.thorough { 2000 } else { 200 }) {
         subs.push(gen_word(&mut r, 1, 14));
         subs.push(crate::util::gen_text(&mut r, 10));
+    }
+    for s in SUBSYSTEMS {
+        subs.extend(single_edits(s));
     }
     for s in subs {
         if !s.contains('\n') {
